@@ -336,3 +336,14 @@ def run(idx, rep, tier):
     c03r3(k)
     for o in rep.obligations[before:]:
         o.rule = 'C04.R3'
+    # C04.R5: the trusted sets come from known_hosts matching; its
+    # classification / negation / port rules are C17.R1-R2
+    from .c17 import r1 as c17r1, r2 as c17r2
+    rep.rule('C04.R5', 'known_hosts pattern and classification rules '
+             '(= C17.R1, C17.R2): a negated element excludes the line, '
+             'markers select the right trust list')
+    before = len(rep.obligations)
+    c17r1(k)
+    c17r2(k)
+    for o in rep.obligations[before:]:
+        o.rule = 'C04.R5'
